@@ -24,7 +24,7 @@ Definition index_open (b : bytes) (K blob_size : N) : (N * N) + ierr :=
     (* the leaves are the last section: the file must reach leaves_offset + records_count * record_header_size
        (check added by commit cb0b7cf of the code; before it a file cut anywhere behind the tree meta was trusted: F5) *)
     if N.of_nat (length b) <? leaves_off + ih_count h * ih_rhs h then inr ICut else
-    if N.of_nat (length b) <? tree_off then inr IPanicOrEof else      (* read_root: file.size() - root_offset *)
+    if N.of_nat (length b) <? tree_off then inr IPanicOrEof else      (* read_root: file.size() - root_offset, checked since commit of the code "tree offset behind its end" (an unexpected-EOF error; it used to overflow) *)
     (* validate *)
     if negb (N.testbit (ih_ver h) 0) then inr INotWritten
     else if negb (N.shiftr (ih_ver h) 1 =? HEADER_VERSION) then inr IVersion
